@@ -776,6 +776,49 @@ fn case<S: ShortGroupSignatureScheme>(v: &Value) -> Value {
             json!({"r":"ok","world":"ok","create":"ok","verify":base,"verify2":verdict(&p2, &w.schema, if same_nonce { &w.nonce } else { &nonce2 }),"links":links,
                    "n_leaves": l1.len(), "n_g2": q_paths.len(), "ratio_hits_same": n_ratio})
         }
+        "decrypt" => {
+            // C10: what the key holder recovers from an accepted presentation
+            let mut out = vec![];
+            for st in w.statements.iter() {
+                match st {
+                    Statements::VerifiableEncryption(s) => {
+                        if let Some(PresentationProofs::VerifiableEncryption(vp)) = p.proofs.get(&s.id) {
+                            let ci = w.sig_cred[&s.reference_id];
+                            let dk = &w.issuers[w.cred_issuer[ci]].1.verifiable_decryption_key;
+                            let m = w.claims[ci][s.claim].to_scalar();
+                            let group_ok = vp.decrypt(dk) == s.message_generator * m;
+                            let sc = catch_unwind(AssertUnwindSafe(|| vp.decrypt_scalar(dk)));
+                            let scalar = match sc {
+                                Ok(Some(v)) => if v == m { "signed" } else { "other" },
+                                Ok(None) => "none",
+                                Err(_) => "panic",
+                            };
+                            // the same credential and generator give the same pseudonym; another generator an unrelated one
+                            out.push(json!({"stmt": s.id, "kind": "venc", "flag": s.allow_message_decryption, "has_part": vp.decryptable_scalar_proof.is_some(),
+                                            "gen_is_std": s.message_generator == G1Projective::GENERATOR,
+                                            "group_ok": group_ok, "scalar": scalar, "pseudonym": hx(&vp.decrypt(dk).to_compressed()),
+                                            "claim": s.claim, "cred": ci, "gen": hx(&s.message_generator.to_compressed())}));
+                        }
+                    }
+                    Statements::VerifiableEncryptionDecryption(s) => {
+                        if let Some(PresentationProofs::VerifiableEncryptionDecryption(vp)) = p.proofs.get(&s.id) {
+                            let ci = w.sig_cred[&s.reference_id];
+                            let dk = &w.issuers[w.cred_issuer[ci]].1.verifiable_decryption_key;
+                            let signed = &w.claims[ci][s.claim];
+                            let r = catch_unwind(AssertUnwindSafe(|| vp.decrypt_and_verify(dk)));
+                            let res = match r {
+                                Ok(Ok(c)) => if &c == signed { "signed" } else if c.to_scalar() == signed.to_scalar() { "same-scalar-other-claim" } else { "other" },
+                                Ok(Err(_)) => "err",
+                                Err(_) => "panic",
+                            };
+                            out.push(json!({"stmt": s.id, "kind": "vdec", "result": res, "gen_is_std": s.message_generator == G1Projective::GENERATOR}));
+                        }
+                    }
+                    _ => {}
+                }
+            }
+            json!({"r":"ok","world":"ok","create":"ok","verify":base,"decrypt":out})
+        }
         "ctx" => {
             let max = v["action"]["max"].as_u64().unwrap_or(1000) as usize;
             let muts = context_mutations::<S>(&w, &mut rng);
